@@ -32,10 +32,11 @@ Print Assumptions C19_defects_are_rejected.
 
 (* "the bytes parse back successfully": proved for accepted messages in the parser's normal form
    (they parse back to themselves); for accepted messages outside it the claim is carried by the
-   correspondence run only (RT on accepted messages), which is why this one is named _partial. *)
+   correspondence run only (RT on accepted messages), which is why this one is named _partial.
+   The bound 268435425 (max_input) is the size up to which the parser cannot meet its "too many fields" limit. *)
 Theorem C19_parse_back_partial : forall (E : env) (m : msg) (b : list Z),
   env_ok E = true -> canon_msg E m = true -> check_msg E m = Ok true ->
-  pack_msg E m = Ok b -> Z.of_nat (length b) <= 2147483647 ->
+  pack_msg E m = Ok b -> Z.of_nat (length b) <= 268435425 ->
   exists m', unpack_top E (m_desc m) b = Ok m'.
 Proof.
   intros E m b EO C _ Hp Hl. exists m. unfold unpack_top.
@@ -47,7 +48,7 @@ Print Assumptions C19_parse_back_partial.
    restriction on values): the bytes parse back, to the message's normal form (Proofs/WfCanon.v, Proofs/CheckReqsub.v) *)
 Theorem C19_parse_back : forall (E : env) (m : msg) (b : list Z),
   env_ok E = true -> wf_msg E m = true -> typed_msg E m = true -> check_msg E m = Ok true ->
-  pack_msg E m = Ok b -> Z.of_nat (length b) <= 2147483647 ->
+  pack_msg E m = Ok b -> Z.of_nat (length b) <= 268435425 ->
   unpack_top E (m_desc m) b = Ok (wnorm_msg E m).
 Proof. exact checked_typed_roundtrip. Qed.
 Print Assumptions C19_parse_back.
